@@ -263,6 +263,14 @@ Theorem C14_split_regroup : forall u props, wf_upload u -> plain_props props ->
 Proof. exact split_then_export. Qed.
 Print Assumptions C14_split_regroup.
 
+(* the hypotheses of C14_split_regroup are satisfiable by a concrete upload (an event referring to a zone with a
+   folded TZID, a to-do without zone) *)
+Theorem C14_split_regroup_nonvacuous :
+  wf_upload UnfixedProofs.up_ok /\ plain_props [[86; 69; 82; 83; 73; 79; 78; 58; 50; 46; 48]] /\
+  (exists c t z, In c (collect UnfixedProofs.up_ok) /\ In t (c_tzrefs c) /\ In z (u_tzs UnfixedProofs.up_ok) /\ z_tzid z = Some t).
+Proof. exact wf_upload_example. Qed.
+Print Assumptions C14_split_regroup_nonvacuous.
+
 Theorem C14_split_unfixed_refuted :
   map (fun g => List.length (g_tzs g)) (split_unfixed up) = [0; 0]%nat /\
   map (fun g => List.length (g_tzs g)) (split up) = [1; 0]%nat.
